@@ -9,8 +9,9 @@ import (
 )
 
 // harness <cmd> [flags]
-//   gen  -family F -n N -seed S [-max M] -out scenarios.ndjson     seeded random scenarios
-//   run  -family F -in scenarios.ndjson -out trace.ndjson            drive the real code, record the trace
+//
+//	gen  -family F -n N -seed S [-max M] -out scenarios.ndjson     seeded random scenarios
+//	run  -family F -in scenarios.ndjson -out trace.ndjson            drive the real code, record the trace
 func main() {
 	if len(os.Args) < 2 {
 		fatal("usage: harness gen|run ...")
@@ -61,6 +62,8 @@ func gen(family string, seed uint64, n, max int, opt string, emit func(interface
 	switch family {
 	case "mux":
 		genMux(seed, n, max, opt == "demux", emit)
+	case "muxfault":
+		genMuxFault(seed, n, max, emit)
 	default:
 		fatal("gen: unknown family %q", family)
 	}
